@@ -331,6 +331,7 @@ impl Workload for Search {
                         Ok(Ok(())) => out.count("solve_all_checked", 1),
                         Ok(Err(d)) if d.starts_with("STALL") => { out.verdict = Verdict::Inconclusive(d); return out; }
                         Ok(Err(d)) => { out.violate(self.sig("solve_all", &c), witness(&c, "solve_all differs", &d)); return out; }
+                        Err(p) if query_stopped() => { let t = start_query_timer(60_000); cancel_timer(t); out.verdict = Verdict::Inconclusive(format!("solve_all panicked while the stop flag was set (timed-out search): {}", p.msg)); return out; }
                         Err(p) => { out.violate(self.sig("solve_all-panic", &c), witness(&c, "solve_all panicked", &p.msg)); return out; }
                     }
                 }
